@@ -449,6 +449,22 @@ def generate(rnd, n_books=1, n_sheets=2, n_const=14, n_formula=12, rows=6, cols=
                     defined.extend(rect)
                     n_arr += 1
                     continue
+                if src is not None and rnd.random() < 0.3:
+                    # the result is a plain reference (a Ranges value, fitted by Ranges.set_value, not by Array.reshape), of any
+                    # shape with another number of cells than the destination (equal sizes: known finding fit-sizeeq)
+                    for _ in range(20):
+                        rg = pick_range()
+                        h, w = rg[2] - rg[1] + 1, rg[4] - rg[3] + 1
+                        if h * w != R * C and not any((rg[0], i_, j_) in rect for i_ in range(rg[1], rg[2] + 1) for j_ in range(rg[3], rg[4] + 1)):
+                            src = rg
+                            break
+                    e = ('ref', src)
+                    for x in rect:
+                        free.remove(x); spill_cells.add(x)
+                    wb.cells[a] = ('a', R, C, e)
+                    defined.extend(rect)
+                    n_arr += 1
+                    continue
                 if src is not None:
                     e = ('bin', rnd.choice(['+', '*', '-', '>', '&']), ('ref', src), ('lit', rnd.choice([1, 2, 10, 0.5])))
                     if rnd.random() < 0.3:
@@ -507,7 +523,7 @@ def generate(rnd, n_books=1, n_sheets=2, n_const=14, n_formula=12, rows=6, cols=
     return wb
 
 
-def range_template(rnd):
+def range_template(rnd, solution_reads=True):
     """a small workbook around one range A1:A3 of sheet 0 with 0..3 populated cells, read as single cells, as the
     whole range, as a sub-range and through a defined name: (wb, range, name or None, formula cells)"""
     wb = WB()
@@ -552,11 +568,24 @@ def range_template(rnd):
         put(8, ('bin', '+', ('name', 'THIRD'), cell(3)))
         put(9, ('bin', '*', ('name', 'THIRD'), ('lit', 10)))
     wb.explicit = wb.has_array or rnd.random() < 0.5
+    listed = {1, 2, 3}
     if not wb.explicit:
-        # blanks stay unlisted: formulas reading an unpopulated cell on its own are dropped (a range override does not
-        # reach an unlisted blank: known finding range-override-unlisted-blank)
-        for r, needs in ((1, [2]), (4, [1]), (5, [3]), (3, [2, 3])):
-            if any(x not in pop for x in needs):
-                wb.cells.pop((0, r, 2), None)
-                outs.remove((0, r, 2))
+        # blanks stay unlisted.  A formula reading an unpopulated cell on its own makes range assembly list that cell as a
+        # blank node, which INV(A1:A3) reaches.  The sub-range A2:A3: one unpopulated cell is listed by range assembly; two
+        # are read from the running solution, where INV(A1:A3) puts the supplied values - which exists only when the range
+        # has a cell node (known finding range-override-all-blank-range); a compiled function freezes such a sub-range
+        # (solution_reads=False: known finding compile-range-over-unlisted-blanks)
+        listed = set(pop)
+        for r, x in ((1, 2), (4, 1), (5, 3)):
+            if x not in pop:
+                if rnd.random() < 0.6:
+                    wb.cells.pop((0, r, 2), None)
+                    outs.remove((0, r, 2))
+                else:
+                    listed.add(x)
+        if (not listed) or (2 not in listed and 3 not in listed and not solution_reads):
+            wb.cells.pop((0, 3, 2), None)
+            outs.remove((0, 3, 2))
+    # B3 reads cells that are no nodes from the running solution: a dependence the graph does not show
+    wb.solution_read = [(0, 3, 2)] if (not wb.explicit and (0, 3, 2) in wb.cells and 2 not in listed and 3 not in listed) else []
     return wb, R, name, outs
